@@ -43,6 +43,15 @@ fn main() {
     let m = args_map(&args[2..]);
     rt::install_panic_hook();
     match args[1].as_str() {
+        "dec" => {
+            // debugging aid: decode hex as a transaction with the library and the reference decoder
+            let b = rt::unhex(&args[2]).expect("hex");
+            println!("lib: {:?}", elements::encode::deserialize::<elements::Transaction>(&b).map(|t| t.txid()));
+            let mut r = refmodel::ser::R::new(&b);
+            let res = refmodel::ser::dec_tx(&mut r);
+            println!("ref: {:?} at pos {}", res.as_ref().map(|_| ()), r.pos);
+            if let Ok(t) = res { println!("{:#?}", t); }
+        }
         "selftest" => {
             let rep = selftest::run();
             let ok = rep["ok"].as_bool().unwrap_or(false);
